@@ -639,6 +639,8 @@ class Machine:
             self.soft(); return
         import re
         pat, hay = stk[-1][1], stk[-2][1]
+        if pat in BAD_ERE:
+            self.soft(); return       # cannot be compiled: a diagnostic and no result, for every stack it is applied to
         if b"\0" in pat or b"\0" in hay or not SAFE_ERE.fullmatch(pat):
             raise Indeterminate("regular expression outside the portable subset")
         r = re.search(pat, hay) is not None
@@ -667,6 +669,8 @@ class Machine:
 
 
 import re as _re
+# patterns POSIX requires regcomp to refuse (unbalanced bracket / parenthesis / brace, bad interval, bad class, reversed range, trailing backslash)
+BAD_ERE = frozenset([b"(", b"[", b"a{2,1}", b"(ab", b"[[:foo:]]", b"a\\", b"[b-a]", b"a{"])
 SAFE_ERE = _re.compile(rb"[A-Za-z0-9 _]*(\.\*)?[A-Za-z0-9 _]*")
 
 WORDS = {
